@@ -18,8 +18,11 @@ R02.4 root: the column likelihood is numpy.inner(root partial likelihoods, motif
       the kernel inner_product sums input[i] * mprobs[i] over all states.
 R02.5 rate-heterogeneity bins: the column likelihood is the bprob-weighted SUM of the per-bin column
       likelihoods (paired by zip in bin order), and its log-sum is taken after the mixture, not before.
-R02.6 (shared with C11) each child's psub is the one selected by that child's name (R11.2), index arrays
+R02.6 site-HMM: the forward recursion multiplies the class probabilities on the left of the row-stochastic switch matrix.
+R02.7 (shared with C11) each child's psub is the one selected by that child's name (R11.2), index arrays
       are paired with children positionally (R11.5), and the total is sum_i counts[i] * log(lh[i]) (R11.4).
+R05.9 (shared with C05) word probabilities formed as products of monomer probabilities are renormalised: the root
+      probabilities are a distribution on every alphabet.
 The rate matrices themselves (calcQ, calibration, stationarity) are decided under C05.
 """
 
@@ -265,8 +268,53 @@ def r02_5(chk):
     chk.floor("R02.5", 2, "mixture and its log-sum")
 
 
+def r02_6(chk):
+    chk.rule("R02.6", "the site-HMM forward recursion advances with the ROW-stochastic switch matrix on the right: SiteClassTransitionMatrix builds M[i, j] = P(class i -> class j) (rows sum to one: off-diagonal probs[j]*switch broadcast over columns), so LikelihoodTreeEdge.log_dot_reduce must form state_probs . M (numpy.dot(state_probs, switch_probs), state_probs @ switch_probs, or dot(switch_probs.T, state_probs)); dot(switch_probs, state_probs) is only right for a symmetric M, i.e. uniform patch probabilities -- otherwise switch = 1 does not reproduce the independent-sites likelihood and a one-column alignment can get a positive log-likelihood")
+    m = chk.repo.module(LT)
+    q = "LikelihoodTreeEdge.log_dot_reduce"
+    fn = m.func(q)
+    ps = params_of(fn)
+    Mname = ps[2]  # (self, patch_probs, switch_probs, plhs)
+    k = key(m, q, "state vector times row-stochastic matrix")
+    state = {st.targets[0].id for st in walk_no_nested(fn) if isinstance(st, ast.Assign) and isinstance(st.targets[0], ast.Name) and any(isinstance(x, ast.Name) and x.id == ps[1] for x in ast.walk(st.value))}
+    prods = []
+    for x in walk_no_nested(fn):
+        if isinstance(x, ast.Call) and (call_name(x) or "").split(".")[-1] in ("dot", "matmul") and len(x.args) == 2:
+            prods.append((x, x.args[0], x.args[1]))
+        if isinstance(x, ast.BinOp) and isinstance(x.op, ast.MatMult):
+            prods.append((x, x.left, x.right))
+    prods = [(x, a, b) for x, a, b in prods if any(isinstance(y, ast.Name) and y.id == Mname for y in list(ast.walk(a)) + list(ast.walk(b)))]
+    if not prods:
+        chk.unresolved("R02.6", k, m.loc(fn), "no matrix product with the switch matrix found")
+        chk.floor("R02.6", 0, "")
+        return
+    # the row-stochastic orientation of the matrix itself
+    mk = chk.repo.module("maths/markov.py")
+    tm = mk.func("SiteClassTransitionMatrix")
+    sw = [st for st in walk_no_nested(tm) if isinstance(st, ast.Assign) and norm(st.targets[0]) == "switch_probs"]
+    row = bool(sw) and "(1.0 - I) * (probs * switch)" in norm(sw[0].value)
+    if not row:
+        # another construction of the matrix: its orientation is not established, nothing is decided about the product
+        chk.unresolved("R02.6", key(mk, "SiteClassTransitionMatrix", "rows are the from-class"), mk.loc(sw[0] if sw else tm), "the switch matrix is not built as (1 - I) * (probs * switch) + ...: orientation unknown")
+        chk.unresolved("R02.6", k, m.loc(fn), "orientation of the switch matrix unknown")
+        chk.floor("R02.6", 0, "")
+        return
+    chk.ok("R02.6", key(mk, "SiteClassTransitionMatrix", "rows are the from-class"), mk.loc(sw[0]), "off-diagonal (1 - I) * (probs * switch): M[i, j] = probs[j] * switch, rows sum to one")
+    for x, a, b in prods:
+        def is_state(e):
+            return isinstance(e, ast.Name) and e.id in state
+        def is_M(e):
+            return isinstance(e, ast.Name) and e.id == Mname
+        def is_MT(e):
+            return (isinstance(e, ast.Attribute) and e.attr == "T" and is_M(e.value)) or (isinstance(e, ast.Call) and (call_name(e) or "").split(".")[-1] == "transpose" and e.args and is_M(e.args[0]))
+        good = (is_state(a) and is_M(b)) or (is_MT(a) and is_state(b))
+        chk.decide(good, "R02.6", k, m.loc(x), f"`{norm(x)}`", f"`{norm(x)}` multiplies the class probabilities on the wrong side of the row-stochastic switch matrix: with patch probabilities (0.2, 0.8) and bin_switch = 1 the likelihood is -65.380 instead of the independent-sites -65.674, and a single column can get lnL > 0")
+    chk.floor("R02.6", 2, "matrix orientation and the product")
+
+
 def run(chk):
     r02_1(chk)
+    r02_6(chk)
     r02_2(chk)
     r02_3(chk)
     r02_4(chk)
@@ -277,5 +325,11 @@ def run(chk):
     c11.r11_2(chk)
     c11.r11_4(chk)
     c11.r11_5(chk)
+    # the root probabilities pi of the sum-product must be a distribution: word probabilities formed as products of
+    # per-position monomer probabilities are renormalised (C05's R05.9) -- on an alphabet that is not the full tuple
+    # alphabet (codons without stops) the raw product sums to less than one and per-column likelihoods no longer sum to one
+    from . import c05
+
+    c05.r05_9(chk)
     chk.assume("psub[i, j] is the probability of ending in state j having started in i (rows are start states), as produced by the exponentiators decided under C05")
-    chk.assume("not decided: numerical equality with an independent evaluation; scaling / underflow handling; the site-HMM (patch) likelihood; the rate matrices themselves (C05)")
+    chk.assume("not decided: numerical equality with an independent evaluation; scaling / underflow handling; the site-HMM likelihood beyond the orientation of its recursion (R02.6); the rate matrices themselves (C05)")
